@@ -330,17 +330,29 @@ pub fn run_mem(bytes: Vec<u8>) -> String {
 // resource measurements (C05: measured, not proved)
 
 /// Bytes one pre-allocated slot costs: a `ZipFileData` in `files` plus a `(String, usize)` bucket of
-/// `names_map` (hashbrown: buckets = next power of two of 8/7·capacity, one control byte each).
+/// `names_map` (hashbrown: buckets = next power of two of 8/7·capacity, 32 bytes + one control byte each,
+/// i.e. at most ~75 bytes per requested element).  Reported in the evidence, not part of the budget.
 pub fn slot_bytes() -> usize {
-    std::mem::size_of::<zip::verif_hooks::ZipFileData>() + 128
+    std::mem::size_of::<zip::verif_hooks::ZipFileData>() + 75
 }
 
-/// Budget for the peak heap while opening `len` input bytes: `K·len + C` with
-/// `K = size_of::<ZipFileData>() + 128`, `C = 1 MiB`.  (`Vec::with_capacity(file_capacity)` with
-/// `file_capacity ≤ cde_start_pos ≤ len` elements is the dominant term; Lean: `prealloc_bound`.)
+/// Heap bytes allowed per input byte while opening.  Every central header occupies at least 46 input
+/// bytes, so an opener that reserves at most one slot per header that FITS (Lean: `open_prealloc_bound`,
+/// `capacity * 46 <= cde_start_pos - directory_start`) costs `slot_bytes()/46` = 5.5 bytes per input
+/// byte in its worst case (measured maximum: see `mem.max_peak_per_input_byte_x100` in the evidence);
+/// a vector that grows by doubling instead stays below twice that.  16 leaves a margin of almost 3 and
+/// is still a "modest multiple": the unrepaired guard (`count <= cde_start_pos`) cost 242 bytes per
+/// input byte and fails this budget for every liar longer than ~4.7 kB.
+pub const MEM_K: usize = 16;
+
+/// Budget for the peak heap while opening `len` input bytes: `MEM_K·len + 1 MiB`.
 pub fn mem_budget(len: usize) -> usize {
-    slot_bytes() * len + (1 << 20)
+    MEM_K * len + (1 << 20)
 }
+
+/// Inputs shorter than this are dominated by the constant part (response strings, 64 KiB read buffers): the
+/// reported heap-bytes-per-input-byte maximum is taken over longer inputs only.
+pub const RATIO_MIN_LEN: usize = 40000;
 
 pub const TIME_LIMIT_US: u128 = 2_000_000;
 
@@ -1034,6 +1046,70 @@ pub fn eocd64_liar(junk: &[u8], count: u64) -> Vec<u8> {
     b
 }
 
+/// `eocd64_liar` with the directory declared at `dir_off` (0 = "the whole input is central directory":
+/// the guard of `ZipArchive::new` then admits up to `(junk.len() + 76) / 46` entries).
+pub fn eocd64_liar_at(junk: &[u8], count: u64, dir_off: u64) -> Vec<u8> {
+    let mut b = eocd64_liar(junk, count);
+    let p = junk.len();
+    b[p + 48..p + 56].copy_from_slice(&dir_off.to_le_bytes());
+    b
+}
+
+/// `eocd_liar` with a declared directory SIZE of `size` bytes and offset 0.  Without ZIP64 records the reader derives
+/// `archive_offset = cde_start_pos - size - offset`, so the directory "starts" `size` bytes before the end record: the
+/// size field is the room for headers.
+pub fn eocd_liar_sized(junk: &[u8], count: u64, size: u32) -> Vec<u8> {
+    let mut b = eocd_liar(junk, count);
+    let p = junk.len();
+    b[p + 12..p + 16].copy_from_slice(&size.to_le_bytes());
+    b[p + 16..p + 20].copy_from_slice(&0u32.to_le_bytes());
+    b
+}
+
+/// One minimal central header (46 bytes: empty name, no extra field, no comment, Stored, local header "at" 0).
+fn bare_central_header() -> Vec<u8> {
+    let mut h = vec![];
+    h.extend_from_slice(&0x02014b50u32.to_le_bytes());
+    h.extend_from_slice(&[20, 0, 20, 0, 0, 0, 0, 0, 0, 0, 0x21, 0]);
+    h.extend_from_slice(&[0u8; 12]); // crc, sizes
+    h.extend_from_slice(&[0u8; 18]); // name/extra/comment lengths, disk, attributes, offset
+    h
+}
+
+/// The densest directory an input can carry: `n` minimal central headers back to back from offset 0 and an end
+/// record (ZIP64 records when `n` needs them) declaring exactly `n` — every 46 input bytes cost one `ZipFileData`
+/// and one name-map slot.  This is the worst case of the repaired pre-allocation guard, and it is a VALID request.
+pub fn dense_directory(n: usize) -> Vec<u8> {
+    let mut b = vec![];
+    for _ in 0..n { b.extend_from_slice(&bare_central_header()); }
+    let dir = b.clone();
+    if n >= 0xFFFF {
+        let mut e = eocd64_liar_at(&dir, n as u64, 0);
+        // directory size field of the ZIP64 record
+        let p = dir.len();
+        e[p + 40..p + 48].copy_from_slice(&(dir.len() as u64).to_le_bytes());
+        e
+    } else {
+        eocd_liar_sized(&dir, n as u64, dir.len() as u32)
+    }
+}
+
+/// An end record whose COMMENT holds `k` central headers and whose directory offset points at the comment
+/// (behind the end record): `ZipArchive::new` reads them (room for headers = 0, nothing reserved, the vector
+/// grows by doubling); `new_append` refuses (D16).
+pub fn directory_in_comment(k: usize) -> Vec<u8> {
+    let mut b = vec![];
+    b.extend_from_slice(&0x06054b50u32.to_le_bytes());
+    b.extend_from_slice(&[0, 0, 0, 0]);
+    b.extend_from_slice(&(k as u16).to_le_bytes());
+    b.extend_from_slice(&(k as u16).to_le_bytes());
+    b.extend_from_slice(&((46 * k) as u32).to_le_bytes());
+    b.extend_from_slice(&22u32.to_le_bytes());
+    b.extend_from_slice(&((46 * k) as u16).to_le_bytes());
+    for _ in 0..k { b.extend_from_slice(&bare_central_header()); }
+    b
+}
+
 impl Stream for ReadStream {
     fn name(&self) -> &'static str {
         "read"
@@ -1041,7 +1117,7 @@ impl Stream for ReadStream {
 
     fn gen(&self, seed: u64, tier: &str) -> GenOut {
         let mut g = GenOut::default();
-        g.rule = "archives from (a) the independent APPNOTE builder (descriptors, forced ZIP64 subsets, prefix, gaps, made-by systems, unknown extras, comments), (b) the crate's writer, (c) builder archives with lying headers (values near 0/2^16/2^32/2^64, AES extras with/without flag, method 99), (d) every truncation point and byte substitutions of seeds, (e) random bytes; each through the seekable (read.seek) and streaming (read.stream) readers; (b2/b3) the streaming entry loop under per-entry consumption patterns (read.streamc: {0, 1, k, all-1, all, all+1, beyond} computed from the entry sizes, and random) over short-read underlying streams (chunk 1, 2, 3, 7, 64, 4096, unlimited) on writer-made and builder-made archives with at least one entry, the visitor on the same archives, and archives with an encrypted / data-descriptor entry the stream must refuse; and a third of them (all truncations and random strings) through ZipWriter::new_append + finish (read.append), (f) pre-allocation liars: junk of 0..200000 bytes (2000000 thorough) + end records (plain and ZIP64) declaring cde_start_pos-1 / cde_start_pos / cde_start_pos+1 / 4x / 64x / 2^32 / 2^64-1 entries, and archives with 50..400 (3000) real entries (read.mem: open only), (h) archives EMITTED by CPython zipfile at generation time (harness/pyzip.py; skipped and counted when python3 is missing): stored / deflate / bzip2 / lzma (unsupported: must fail per entry) payloads, archive and entry comments, duplicate names, DOS / Unix / other hosts, mkdir, unseekable output (data descriptors), force_zip64 seekable and unseekable, 0..64 KiB prefixes prepended or written through - the oracle compares names, contents, method, timestamp, mode, comment, CRC, sizes and header offsets with what Python says it wrote, (g) empty ZIP64 archives whose directory offset points beyond the input (D16 regression cases: new_append must refuse; as a hard guard finish is skipped and reported by the oracle should the directory start ever exceed the input length by more than 1 MiB). The oracle re-runs every case on the implementation under a counting global allocator: no panic, deterministic, wall time < 2 s, peak heap while opening <= (size_of::<ZipFileData>()+128)*len + 1 MiB (measurement, not proof). distinct = distinct op lines; non-trivial = the archive opens".into();
+        g.rule = "archives from (a) the independent APPNOTE builder (descriptors, forced ZIP64 subsets, prefix, gaps, made-by systems, unknown extras, comments), (b) the crate's writer, (c) builder archives with lying headers (values near 0/2^16/2^32/2^64, AES extras with/without flag, method 99), (d) every truncation point and byte substitutions of seeds, (e) random bytes; each through the seekable (read.seek) and streaming (read.stream) readers; (b2/b3) the streaming entry loop under per-entry consumption patterns (read.streamc: {0, 1, k, all-1, all, all+1, beyond} computed from the entry sizes, and random) over short-read underlying streams (chunk 1, 2, 3, 7, 64, 4096, unlimited) on writer-made and builder-made archives with at least one entry, the visitor on the same archives, and archives with an encrypted / data-descriptor entry the stream must refuse; and a third of them (all truncations and random strings) through ZipWriter::new_append + finish (read.append), (f) pre-allocation liars: junk of 0..200000 bytes (2000000 thorough) + end records (plain and ZIP64) declaring cde_start_pos-1 / cde_start_pos / cde_start_pos+1 / 4x / 64x / 2^32 / 2^64-1 entries, and archives with 50..400 (3000) real entries (read.mem: open only), (f2) the same with the directory declared at offset 0 / in the middle / 1, 45, 46 bytes before and 1 byte behind the end record and counts room/46-1, room/46, room/46+1, room, (f3) dense directories: n minimal 46-byte central headers and an end record declaring n-1 / n / n+1 (the worst valid request: one reserved slot per 46 input bytes), directories hidden in the end record's comment (room 0, growth by doubling), (h) archives EMITTED by CPython zipfile at generation time (harness/pyzip.py; skipped and counted when python3 is missing): stored / deflate / bzip2 / lzma (unsupported: must fail per entry) payloads, archive and entry comments, duplicate names, DOS / Unix / other hosts, mkdir, unseekable output (data descriptors), force_zip64 seekable and unseekable, 0..64 KiB prefixes prepended or written through - the oracle compares names, contents, method, timestamp, mode, comment, CRC, sizes and header offsets with what Python says it wrote, (g) empty ZIP64 archives whose directory offset points beyond the input (D16 regression cases: new_append must refuse; as a hard guard finish is skipped and reported by the oracle should the directory start ever exceed the input length by more than 1 MiB). The oracle re-runs every case on the implementation under a counting global allocator: no panic, deterministic, wall time < 2 s, peak heap while opening <= 16*len + 1 MiB (measurement, not proof; one reserved slot costs size_of::<ZipFileData>()+75 bytes and needs 46 input bytes). distinct = distinct op lines; non-trivial = the archive opens".into();
         let thorough = tier == "thorough";
         let scale = if thorough { 20 } else { 1 };
         let mut idx = 0u64;
@@ -1275,6 +1351,67 @@ impl Stream for ReadStream {
                 g.push("append.liar64", format!("read.append bytes={}", hex(&b)));
             }
         }
+        // (f2) the repaired guard (`count <= (cde_start_pos - directory_start) / 46`) at its limits: the directory
+        // declared at offset 0 so that the whole input counts as room, counts m-1 / m / m+1 / 46*m (what the
+        // unrepaired guard admitted) around m = room/46; the directory declared in the middle and one byte before the
+        // end record; junk of a length that makes room an exact multiple of 46 and one less
+        let sizes2: &[usize] = if thorough { &[0, 16, 45, 46, 62, 1000, 20010, 65535, 300000, 2000000] } else { &[0, 16, 62, 1000, 20010, 65535, 200000] };
+        for &p in sizes2 {
+            idx += 1;
+            let mut r = super::rng_for(seed, "read.mem2", idx);
+            let junk = r.bytes(p);
+            let room64 = p as u64 + 76;
+            let m = room64 / 46;
+            for count in [m.saturating_sub(1), m, m + 1, 46 * m, room64] {
+                let b = eocd64_liar_at(&junk, count, 0);
+                g.push("mem.liar64.room", format!("read.mem bytes={}", hex(&b)));
+                g.push("append.liar64.room", format!("read.append bytes={}", hex(&b)));
+            }
+            for ds in [room64 / 2, room64 - 1, room64 - 46, room64 - 45, room64 + 1] {
+                let room = room64.saturating_sub(ds);
+                for count in [room / 46, room / 46 + 1] {
+                    let b = eocd64_liar_at(&junk, count, ds);
+                    g.push("mem.liar64.room-ds", format!("read.mem bytes={}", hex(&b)));
+                }
+            }
+            // 32-bit end record: room = the declared directory size
+            for size in [p as u64, (p as u64).saturating_sub(1), p as u64 / 2] {
+                let m32 = size / 46;
+                for count in [m32.saturating_sub(1), m32, m32 + 1, size] {
+                    let b = eocd_liar_sized(&junk, count, size as u32);
+                    g.push("mem.liar32.room", format!("read.mem bytes={}", hex(&b)));
+                    g.push("append.liar32.room", format!("read.append bytes={}", hex(&b)));
+                }
+            }
+        }
+        // (f3) the worst VALID request: a directory of minimal headers and nothing else (one slot per 46 bytes),
+        // also with the count one too high / too low, and a directory hidden in the end record's comment
+        // (the list-based model pays O(len) per read: directories of more than ~1000 headers go through the
+        // implementation-only `dense=` measurement below)
+        for n in if thorough { vec![1usize, 2, 45, 300, 1000, 4000] } else { vec![1usize, 45, 1000] } {
+            let b = dense_directory(n);
+            g.push("mem.dense", format!("read.mem bytes={}", hex(&b)));
+            if n <= 300 { g.push("append.dense", format!("read.append bytes={}", hex(&b))); }
+            let mut lo = b.clone();
+            let p = 46 * n;
+            lo[p + 8..p + 10].copy_from_slice(&((n - 1) as u16).to_le_bytes());
+            lo[p + 10..p + 12].copy_from_slice(&((n - 1) as u16).to_le_bytes());
+            g.push("mem.dense-1", format!("read.mem bytes={}", hex(&lo)));
+            let mut hi = b.clone();
+            hi[p + 8..p + 10].copy_from_slice(&((n + 1) as u16).to_le_bytes());
+            hi[p + 10..p + 12].copy_from_slice(&((n + 1) as u16).to_le_bytes());
+            g.push("mem.dense+1", format!("read.mem bytes={}", hex(&hi)));
+        }
+        // implementation-only: the oracle builds `dense_directory(n)` itself and measures the open (the model answers
+        // for the small `bytes` of the line)
+        for n in if thorough { vec![4000usize, 20000, 65534, 65535, 70000, 500000] } else { vec![4000usize, 65535, 70000] } {
+            g.push("mem.dense.big", format!("read.mem bytes={} dense={n}", hex(&dense_directory(1))));
+        }
+        for k in [1usize, 2, 100, 700] {
+            let b = directory_in_comment(k);
+            g.push("mem.incomment", format!("read.mem bytes={}", hex(&b)));
+            g.push("append.incomment", format!("read.append bytes={}", hex(&b)));
+        }
         // (g) append liars (D16 regression cases): empty ZIP64 archives whose directory offset points
         // beyond the end record — `new_append` must answer InvalidArchive
         for off in [99u64, 1 << 16, 1 << 32, 1 << 40, u64::MAX - 1, u64::MAX] {
@@ -1328,10 +1465,11 @@ impl Stream for ReadStream {
         vec![
             ("mem.measured_cases".into(), MEASURED.load(Relaxed)),
             ("mem.sizeof_ZipFileData".into(), std::mem::size_of::<zip::verif_hooks::ZipFileData>() as u64),
-            ("mem.budget_K_bytes_per_input_byte".into(), slot_bytes() as u64),
+            ("mem.budget_K_bytes_per_input_byte".into(), MEM_K as u64),
+            ("mem.slot_bytes_per_reserved_element".into(), slot_bytes() as u64),
             ("mem.budget_C_bytes".into(), 1 << 20),
             ("mem.max_peak_bytes".into(), MAX_PEAK.load(Relaxed)),
-            ("mem.max_peak_per_input_byte_x100(len>=1000)".into(), MAX_RATIO_X100.load(Relaxed)),
+            ("mem.max_peak_per_input_byte_x100(len>=40000)".into(), MAX_RATIO_X100.load(Relaxed)),
             ("time.max_case_us".into(), MAX_US.load(Relaxed)),
             ("time.limit_us".into(), TIME_LIMIT_US as u64),
         ]
@@ -1373,12 +1511,33 @@ impl Stream for ReadStream {
             let peak = measure_open(&op, &bytes);
             MEASURED.fetch_add(1, Relaxed);
             MAX_PEAK.fetch_max(peak as u64, Relaxed);
-            if bytes.len() >= 1000 {
+            if bytes.len() >= RATIO_MIN_LEN {
                 MAX_RATIO_X100.fetch_max((peak as u64 * 100) / bytes.len() as u64, Relaxed);
+            }
+            if let Some(n) = get_u64(&a, "dense") {
+                // the worst valid request at scale, implementation only: n minimal headers, end record declaring n
+                let big = dense_directory(n as usize);
+                let t1 = std::time::Instant::now();
+                let opened = { let b = big.clone(); catch(move || zip::ZipArchive::new(Cursor::new(b)).map(|a| a.len()).ok()) };
+                let us = t1.elapsed().as_micros();
+                MAX_US.fetch_max(us as u64, Relaxed);
+                if opened != Ok(Some(n as usize)) {
+                    f.push(OracleFailure { what: format!("a directory of {n} minimal central headers does not open with {n} entries: {opened:?}") });
+                }
+                if us > TIME_LIMIT_US {
+                    f.push(OracleFailure { what: format!("opening a directory of {n} minimal headers took {us} us (> {TIME_LIMIT_US} us)") });
+                }
+                let pk = measure_open("read.mem", &big);
+                MEASURED.fetch_add(1, Relaxed);
+                MAX_PEAK.fetch_max(pk as u64, Relaxed);
+                MAX_RATIO_X100.fetch_max((pk as u64 * 100) / big.len() as u64, Relaxed);
+                if pk > mem_budget(big.len()) {
+                    f.push(OracleFailure { what: format!("peak heap while opening = {pk} bytes > budget {} = {MEM_K}*len + 1 MiB for len = {} (directory of {n} minimal headers)", mem_budget(big.len()), big.len()) });
+                }
             }
             let budget = mem_budget(bytes.len());
             if peak > budget {
-                f.push(OracleFailure { what: format!("peak heap while opening = {peak} bytes > budget {budget} = {}*len + 1 MiB for len = {}", slot_bytes(), bytes.len()) });
+                f.push(OracleFailure { what: format!("peak heap while opening = {peak} bytes > budget {budget} = {MEM_K}*len + 1 MiB for len = {} ({} bytes of heap per input byte)", bytes.len(), peak / bytes.len().max(1)) });
             }
         }
         if op == "read.streamc" {
